@@ -612,7 +612,8 @@ def run_spans(ck):
     ck.coverage["evaluations"] += len(cases)
     ck.coverage["distinct_nontrivial"] += len(distinct)
     ck.coverage["rule"] += ("span requests: OTLP protobuf (1-3 resources x 0-2 scopes x 0-3 spans, attributes of every AnyValue kind nested to depth %s, "
-                            "repeated and special keys, zero/max ids, end<start and >2^63 times, missing resource, missing value), Zipkin JSON array and NDJSON "
+                            "repeated and special keys, zero/max ids, end<start and >2^63 times, missing resource, missing value; 3%% with one string that is not UTF-8 -- a span name, an "
+                            "attribute key or string value, top level or nested, of a span or a resource: refused by proto.Unmarshal; strings at U+10FFFF and around the surrogates), Zipkin JSON array and NDJSON "
                             "(1-4 spans, shuffled fields, 1-37 digit ids, string/number times incl. the *1000 overflow edge, endpoints, string and non-string "
                             "tags, repeated fields, one malformed field in 20%% incl. integers above 2^64, exponent/fraction forms and microseconds whose nanoseconds leave int64; "
                             "strings and member names written with encoding/json's escapes (50%%), with every non-ASCII character, '/' and control character as an escape "
@@ -666,6 +667,7 @@ def run_spans(ck):
     ck.extra["rows_read_back"] = sum(len(c["read"] or []) for c in cases)
     ck.add_samples([{"fmt": c["fmt"], "input": c["otlp"] or c["zip"], "rows": c["spans"], "tags": c["tags"][:6], "read": c["read"]}
                     for c in cases if nontrivial(c) and size_of(c) < 1500][:3])
+    run_utf8(ck)
 
 
 def run_replay(ck):
@@ -704,14 +706,35 @@ def run_replay(ck):
         ck.violation({"property": PID, "kind": "model/implementation disagree (replayed)", "case": cs[0]}, no_input=True)
 
 
+def run_utf8(ck):
+    """Spans.utf8_valid (the model of proto.Unmarshal's string check) against Go's utf8.Valid on byte strings over the bytes at which UTF-8 decides"""
+    n = ck.n(1500, 20000)
+    outp = os.path.join(ck.work, "utf8.jsonl")
+    rc, out = ck.go_run("spans", ["--seed", ck.seed, "--out", outp], env_extra={"SPANS_UTF8": str(n)})
+    if rc != 0:
+        ck.obligation("harness spans ran the UTF-8 probe", False, out[-800:])
+        return
+    rows = [json.loads(l) for l in open(outp)]
+    distinct = sorted({(r["hex"], r["valid"]) for r in rows})
+    txt = (HEADER + "Definition P : list (string * bool) := %s.\n" % coq_list(['(hx "%s", %s)' % (h, "true" if v else "false") for h, v in distinct]) +
+           "Definition U := Eval vm_compute in List.length (filter (fun p => negb (Bool.eqb (utf8_valid (fst p)) (snd p))) P).\nPrint U.\n")
+    rc, out = ck.coq_eval("C06_utf8", txt)
+    m = re.search(r"U = (\d+)", out) if rc == 0 else None
+    ck.obligation("correspondence: model Spans.utf8_valid = utf8.Valid (what proto.Unmarshal applies to the strings of an OTLP request) on %d distinct byte strings "
+                  "over the bytes at which UTF-8 decides (%d of them valid)" % (len(distinct), sum(1 for _, v in distinct if v)),
+                  m is not None and int(m.group(1)) == 0, out[-600:])
+    ck.extra["utf8_probe_strings"] = len(distinct)
+
+
 def run(ck):
     if ck.replay:
         run_replay(ck)
         return
     ck.trusted += [
         "C06: the OTLP payload is concrete (SpansWireY.enc_spany = proto.Marshal byte for byte on every stored payload of the run: events, status, trace_state, dropped "
-        "counts (those of events included), links and flags: every field of trace.v1.Span; dec_spany (enc_spany s x y) = (s, x, y) proved); UTF-8 validation of protobuf "
-        "strings is not modelled (the generator's OTLP strings are UTF-8); the legacy JSON form of OTLP payloads (parseOTLPJson, written by the JS writer only) is not modelled in Coq: "
+        "counts (those of events included), links and flags: every field of trace.v1.Span; dec_spany (enc_spany s x y) = (s, x, y) proved); proto.Unmarshal's refusal of strings that are not UTF-8 is modelled for the "
+        "strings the model sees (span name, attribute keys and string values of spans and resources; utf8_valid = utf8.Valid compared on a probe set), the strings of events, "
+        "status, links and trace_state are UTF-8 in the generator; the legacy JSON form of OTLP payloads (parseOTLPJson, written by the JS writer only) is not modelled in Coq: "
         "it is compared, span by span, with the read-back of the protobuf form outside Coq",
         "C06: the Zipkin payload is a JSON TOKEN STREAM (SpansJson: the write path's walk, the read path's parse, fields, kind, annotations are Gallina over tokens); "
         "the tokenizers themselves (bytes -> tokens: whitespace, escape decoding, number scanning, UTF-8) are the oracle: jx on every element text, fastjson on every "
